@@ -7,7 +7,7 @@ import z3
 from .engine import (Engine, State, Frame, Signal, And, Or, Not, Implies, Ite, to_opt, EXC_PARENTS,
                      ACTION_KINDS)
 from .values import (Unsupported, EngineError, is_z3, is_boolish, is_intish, simp, Z, ZB, EnumV, Opt,
-                     SymList, EmptyList, SymSet, Obj, ActionV, ClassRef, FuncV, RangeV, ListLit, SymMap2)
+                     SymList, EmptyList, SymSet, Obj, ActionV, ClassRef, FuncV, RangeV, ListLit, SymMap2, NdArray3)
 from .source import AnchorError, FuncInfo
 
 MUTATORS = {"append", "pop", "add", "remove"}
@@ -415,9 +415,16 @@ class Verifier(Engine):
             if isinstance(t, ast.Name) and self.last_min_witness is not None:
                 # x = min([...]): the index attaining the minimum is available to hints as x__argmin
                 st.assign(t.id + "__argmin", self.last_min_witness)
-            if isinstance(t, ast.Name) and t.id in self.contract.hints and not self.concrete \
-                    and (st.frames[-1].func is self.fi):
-                for hint in self.contract.hints[t.id]:
+            hint_keys = []
+            if isinstance(t, ast.Subscript) and not self.concrete and st.frames[-1].func is self.fi:
+                site = self.fi.sites.get(id(s), "")          # "store[k]"
+                hint_keys = [site] if site in self.contract.hints else []
+            if isinstance(t, ast.Name) and not self.concrete and st.frames[-1].func is self.fi:
+                site = self.fi.sites.get(id(s), "")          # "assign[k]:name"
+                k = site[len("assign"):site.index(":")] if site.startswith("assign[") else ""
+                hint_keys = [key for key in (t.id, t.id + k) if key in self.contract.hints]
+            for key in hint_keys:
+                for hint in self.contract.hints[key]:
                     if hint[0] == "use":
                         try:
                             self.use_lemma(hint[1], hint[2], st)
@@ -499,6 +506,39 @@ class Verifier(Engine):
                 self.setattr_(base, t.attr, val, st, node)
                 return
             raise Unsupported("attribute store on %s" % type(base).__name__)
+        if isinstance(t, ast.Subscript) and isinstance(self.ev(t.value, st), NdArray3):
+            arr = self.ev(t.value, st)
+            elts = t.slice.elts if isinstance(t.slice, ast.Tuple) else [t.slice]
+            if len(elts) != 3:
+                raise Unsupported("array store shape")
+            full = [isinstance(e, ast.Slice) and e.lower is None and e.upper is None and e.step is None
+                    for e in elts]
+            comps = list(arr.comps)
+            I64 = 2 ** 63
+            if full[0] and full[1] and not full[2]:          # schedule[:, :, k] = c
+                k = self.ev(elts[2], st)
+                if not isinstance(k, int) or not is_intish(val):
+                    raise Unsupported("array slice store")
+                self.oblige(st, And(self.cmp(ast.GtE(), val, -I64), self.cmp(ast.Lt(), val, I64)),
+                            "int64_no_overflow", node)
+                comps[k] = z3.K(z3.IntSort(), z3.K(z3.IntSort(), Z(val)))
+            elif not full[0] and not full[1] and full[2]:     # schedule[a, b, :] = (x, y, z)
+                a = self.ev(elts[0], st)
+                b = self.ev(elts[1], st)
+                if not (isinstance(val, tuple) and len(val) == 3):
+                    raise Unsupported("array row store of a non-triple")
+                self.oblige(st, And(self.cmp(ast.GtE(), a, 0), self.cmp(ast.Lt(), a, arr.d0),
+                                    self.cmp(ast.GtE(), b, 0), self.cmp(ast.Lt(), b, arr.d1)),
+                            "array_index_in_bounds", node)
+                for k in range(3):
+                    self.oblige(st, And(self.cmp(ast.GtE(), val[k], -I64), self.cmp(ast.Lt(), val[k], I64)),
+                                "int64_no_overflow", node)
+                    row = z3.Store(z3.Select(comps[k], Z(a)), Z(b), Z(val[k]))
+                    comps[k] = simp(z3.Store(comps[k], Z(a), row))
+            else:
+                raise Unsupported("array store pattern")
+            self.store_target(t.value, NdArray3(comps, arr.d0, arr.d1), st, node)
+            return
         if isinstance(t, ast.Subscript):
             base = self.ev(t.value, st)
             idx = self.ev(t.slice, st)
